@@ -182,6 +182,10 @@ VARIANTS += [
 TRK = 'outrank/task_ranking.py'
 VARIANTS += [
     V('C13', 'F9 reintroduced: bare value membership', CR, "if (column, value) not in ignored_values:", "if value not in ignored_values:"),
+    V('C13', 'F21 reintroduced: numbers reach xxhash unconverted', 'outrank/core_utils.py', "    if not isinstance(input_obj, (str, bytes)):\n        # numeric columns (e.g. the noise control features) reach the cardinality step too\n        input_obj = str(input_obj)\n", ""),
+    V('C13', 'F21 reintroduced: truthiness guard drops 0', CR, "            if not (isinstance(unique_value, str) and unique_value == ''):", "            if unique_value:"),
+    V('C13', 'twin: empty-string guard spelled !=', CR, "            if not (isinstance(unique_value, str) and unique_value == ''):", "            if unique_value != '':", expect='clean'),
+    V('C13', 'str values no longer encoded', 'outrank/core_utils.py', "    if isinstance(input_obj, str):\n        input_obj = input_obj.encode('utf-8')\n", ""),
     V('C13', 'retire on >=', CR, "if val > rare_value_count_upper_bound:", "if val >= rare_value_count_upper_bound:"),
     V('C13', 'membership test dropped', CR, "            if (column, value) not in ignored_values:\n                global_storage[(column, value)] += 1", "            global_storage[(column, value)] += 1"),
     V('C13', 'retired set rebuilt each batch', CR, "    ignored_values = IGNORED_VALUES\n", "    ignored_values = set()\n"),
@@ -191,8 +195,8 @@ VARIANTS += [
     V('C13', 'counter re-created every batch', CR, "        if column not in GLOBAL_COUNTS_STORAGE:\n            GLOBAL_COUNTS_STORAGE[column] = PrimitiveConstrainedCounter(max_unique_hist_constraint)", "        GLOBAL_COUNTS_STORAGE[column] = PrimitiveConstrainedCounter(max_unique_hist_constraint)"),
     V('C13', 'counter fed per batch (batch_add)', CR, "        for value in column_data.values:\n            GLOBAL_COUNTS_STORAGE[column].add(value)", "        GLOBAL_COUNTS_STORAGE[column].batch_add(column_data.values)"),
     V('C13', 'counter fed with unique values only', CR, "        for value in column_data.values:\n            GLOBAL_COUNTS_STORAGE[column].add(value)", "        for value in unique_values:\n            GLOBAL_COUNTS_STORAGE[column].add(value)"),
-    V('C13', 'sketch fed unhashed first 100 values', CR, "        for unique_value in unique_values:\n            if unique_value:", "        for unique_value in list(unique_values)[:100]:\n            if unique_value:"),
-    V('C13', 'sketch skips short values', CR, "            if unique_value:\n                GLOBAL_CARDINALITY_STORAGE", "            if len(unique_value) > 1:\n                GLOBAL_CARDINALITY_STORAGE"),
+    V('C13', 'sketch fed unhashed first 100 values', CR, "        for unique_value in unique_values:\n", "        for unique_value in list(unique_values)[:100]:\n"),
+    V('C13', 'sketch skips short values', CR, "            if not (isinstance(unique_value, str) and unique_value == ''):\n                GLOBAL_CARDINALITY_STORAGE", "            if len(unique_value) > 1:\n                GLOBAL_CARDINALITY_STORAGE"),
     V('C13', 'F7 reintroduced: str to xxhash', CU, "    if isinstance(input_obj, str):\n        input_obj = input_obj.encode('utf-8')\n", ""),
     V('C13', 'coverage without *100', CR, "            1 - (all_missing / input_dataframe.shape[0])\n        ) * 100", "            1 - (all_missing / input_dataframe.shape[0])\n        )"),
     V('C13', 'coverage counts only first symbol', CR, "                for x in all_missing_symbols\n", "                for x in list(all_missing_symbols)[:1]\n"),
